@@ -89,7 +89,9 @@ type Scenario struct {
 	Gens       []Generation `json:"gens"`
 }
 
-var apps = []string{"a0", "srv/foo.com", "a2"} // one key value with separator characters (the queue directory name is a sanitised form of it)
+// one key value with separator characters (the queue directory name is a sanitised form of it), one that is not valid
+// UTF-8 (the syslog parser takes any bytes; key values become tag parts, queue IDs and metric label values)
+var apps = []string{"a0", "srv/foo.com", "a2", "a\xff3"}
 var hosts = []string{"h0", "h1"}
 var levels = []string{"off", "fatal", "crit", "error", "warn", "notice", "info", "debug"}
 
@@ -119,6 +121,7 @@ type StopObs struct {
 	Disk         []map[string]*vh.ForwardMessage // per output: chunk ID -> decoded message (files in the queue directories)
 	DiskErrors   []string
 	Metrics      vh.Metrics
+	MetricsErr   string // error returned by the agent's metric gatherer (the /metrics endpoint answers 500 then)
 	InputDrained bool
 	SentLines    int // lines written by clients on connections closed gracefully
 	SentBytes    int
@@ -273,6 +276,7 @@ type agent struct {
 		LaunchInputs(base.Orchestrator) ([]string, func())
 	}
 	gather   func() vh.Metrics
+	gatherErr func() (vh.Metrics, string)
 	orch     base.Orchestrator
 	addr     string
 	stopIn   func()
@@ -288,6 +292,7 @@ func startAgent(confPath string, reloader bool) (*agent, error) {
 		}
 		a.loader = ld
 		a.gather = func() vh.Metrics { return vh.Gather(ld.GetMetricGatherer()) }
+		a.gatherErr = func() (vh.Metrics, string) { return vh.GatherErr(ld.GetMetricGatherer()) }
 	} else {
 		ld, err := run.NewLoaderFromConfigFile(confPath, "slogagent_")
 		if err != nil {
@@ -295,6 +300,7 @@ func startAgent(confPath string, reloader bool) (*agent, error) {
 		}
 		a.loader = ld
 		a.gather = func() vh.Metrics { return vh.Gather(ld.GetMetricGatherer()) }
+		a.gatherErr = func() (vh.Metrics, string) { return vh.GatherErr(ld.GetMetricGatherer()) }
 	}
 	a.orch = a.loader.StartOrchestrator(logger.Root())
 	if ro, ok := a.orch.(*run.ReloadableOrchestrator); ok {
@@ -342,7 +348,7 @@ func orphanQueues(bufRoot string, nOut int, keyHost bool, gather func() vh.Metri
 	var orphans []string
 	for _, w := range withFiles {
 		keys := strings.Split(w.id, ",")
-		labels := []string{"output=" + w.out, "key_app=" + keys[0]}
+		labels := []string{"output=" + w.out, "key_app=" + labelValue(keys[0])}
 		if keyHost && len(keys) > 1 {
 			labels = append(labels, "key_host="+keys[1])
 		}
@@ -352,6 +358,10 @@ func orphanQueues(bufRoot string, nOut int, keyHost bool, gather func() vh.Metri
 	}
 	return len(withFiles), orphans
 }
+
+// labelValue is the metric label value that stands for a key value: label values have to be valid UTF-8, the agent
+// replaces invalid sequences by U+FFFD (as it does for the metricKeys fields).
+func labelValue(v string) string { return strings.ToValidUTF8(v, "\uFFFD") }
 
 // decodeDir reads every chunk file below an output's root directory.
 func decodeDir(root string) (map[string]*vh.ForwardMessage, []string) {
@@ -764,7 +774,7 @@ func runScenario(sc Scenario) *Outcome {
 			c.Close()
 		}
 		so := StopObs{Gen: gi, StopMs: stopMs, InputDrained: drained, SentLines: sentLines, SentBytes: sentBytes, OpenLines: openLines, UpstreamAtStop: upState}
-		so.Metrics = ag.gather()
+		so.Metrics, so.MetricsErr = ag.gatherErr()
 		for i := 0; i < nOut; i++ {
 			d, errs := decodeDir(filepath.Join(root, "buf", fmt.Sprintf("out%d", i)))
 			so.Disk = append(so.Disk, d)
